@@ -467,6 +467,30 @@ def r4(c):
                     "the generator's own ACL (AclError -> GeneratorError)", key_text="acl-names")
 
 
+    # the "already defined" bookkeeping of the list generators is keyed by the name the list is defined under
+    ndedupe = 0
+    for modname in ("annet.rpl_generators.cumulus_frr", "annet.rpl_generators.prefix_lists"):
+        m = repo.module(modname)
+        for q, fn in m.defs.items():
+            if not isinstance(fn, ast.FunctionDef):
+                continue
+            pvq = None
+            for x in calls_in(fn):
+                if isinstance(x.func, ast.Attribute) and x.func.attr == "add" and isinstance(x.func.value, ast.Name) and len(x.args) == 1 and repo.enclosing_func(x) is fn:
+                    sname = x.func.value.id
+                    tests = [t for t in ast.walk(fn) if isinstance(t, ast.Compare) and len(t.ops) == 1 and isinstance(t.ops[0], (ast.In, ast.NotIn)) and norm(t.comparators[0]) == sname]
+                    if not tests:
+                        continue
+                    pvq = pvq or Provenance(fn)
+                    for e, at_ in [(x.args[0], x)] + [(t.left, t) for t in tests]:
+                        ndedupe += 1
+                        ev = pvq.resolve_alias(e)
+                        ok = isinstance(ev, ast.Attribute) and ev.attr == "name" and any(isinstance(o.func, ast.Attribute) and o.func.attr == "get_prefix"
+                                                                                      for o in pvq.origin_calls(ev.value, through_calls=False))
+                        c.check("C14.R4", ok, repo.loc(m, at_), f"{q}/dedupe-key:{sname}", f"`{norm(at_)[:60]}` keys the already-rendered set by `{norm(ev)[:40]}`, not by the name the list is defined "
+                                "under (get_prefix(...).name): two or_longer variants of one source list have different derived names — the second is referenced by the policy but never defined",
+                                key_text="dedupe-key")
+    c.floor("C14.R4", "dedupe keys of the prefix-list generators", ndedupe, 8)
     # united community lists
     cm = repo.module("annet.rpl_generators.community")
     fn = repo.func("annet.rpl_generators.community", "get_used_united_community_lists")
